@@ -68,9 +68,43 @@ def all_cases(tier, double=None):
     else:
         cases = structure_cases(11) + deviation_cases(
             True if double is None else double)
-    cases = cases + large_cases() + coincidence_cases()
+    cases = cases + large_cases() + coincidence_cases() + cross_entry_cases()
     _CACHE[key] = cases
     return cases
+
+
+def cross_entry_cases():
+    """Self-contained IRs in which a module's entry point (and CFG edges, and
+    an IR-level table) name a code block owned by ANOTHER module of the same
+    IR, in both list orders, while symbol and expression references stay
+    inside their module - C01's premise restricts only the latter."""
+    U = irgen.U
+    out = []
+    for order in ("later", "earlier"):
+        for own in (False, True):
+            k1 = irgen.mk_block("code", 1, size=2)
+            k2 = irgen.mk_block("code", 2, offset=2, size=2)
+            b1 = irgen.mk_interval(3, address=0x10, size=4,
+                                   contents=b"\x01\x02", blocks=[k1, k2])
+            s1 = irgen.mk_section(4, ".text", flags=[1, 3], intervals=[b1])
+            yb = irgen.mk_symbol(5, "start", ("ref", U(1)))
+            mB = irgen.mk_module(6, "lib", sections=[s1], symbols=[yb],
+                                 entry=U(2) if own else None)
+            k3 = irgen.mk_block("code", 8, size=1)
+            ba = irgen.mk_interval(11, address=0x40, size=8, contents=b"\x90",
+                                   blocks=[k3])
+            sa = irgen.mk_section(12, ".init", intervals=[ba])
+            ya = irgen.mk_symbol(9, "local", ("ref", U(8)))
+            mA = irgen.mk_module(13, "main", sections=[sa], symbols=[ya],
+                                 entry=U(1))
+            mC = irgen.mk_module(15, "stub", entry=U(8))
+            mods = [mA, mC, mB] if order == "later" else [mB, mC, mA]
+            ir = irgen.mk_ir(14, modules=mods,
+                             cfg=[(U(8), U(1), (1, False, True)),
+                                  (U(1), U(8), None)])
+            out.append(("cross-entry/%s/%s" % (order, "own" if own else "none"),
+                        ir))
+    return out
 
 
 def cross_module_cases():
